@@ -349,8 +349,8 @@ def history_templates(tier, pid='C01'):
     T.append(dict(name='convertible ask matched after approval, then cancelled', cfg=dict(cfg_ask_fee=False, cfg_bid_fee=False),
                   steps=[S('CreateAsk', nfunds=1), S('ApproveAsk', nfunds=1), S('CreateBid', nfunds=1), S('ExecuteMatch'), S('CancelAsk')]))
     if tier == 'thorough':
-        T.append(dict(name='two fills of one fee-bearing bid, then cancel', cfg=dict(cfg_ask_fee=False, cfg_bid_fee=True),
-                      steps=[S('CreateBid', nfunds=1, reqfee=True), S('CreateAsk', nfunds=1), S('ExecuteMatch'), S('ExecuteMatch'), S('CancelBid')]))
+        # (a five-request template with two fills was tried here: it did not finish in an hour even with a budget of 2000 histories; the second
+        #  fill on partially filled orders is covered by the budgeted reached-state templates of C02 / C03 / C09 / C11 / C17 instead)
         T.append(dict(name='partial reject then match then expire of a bid', cfg=dict(cfg_ask_fee=False, cfg_bid_fee=True),
                       steps=[S('CreateBid', nfunds=1, reqfee=True), S('RejectBidSome'), S('CreateAsk', nfunds=1), S('ExecuteMatch'), S('ExpireBid')]))
     return [dict(kind='History', **t) for t in T]
@@ -506,7 +506,7 @@ def run_history(sc, hspec, ireq, max_paths=12000, final_all=False, truncate=Fals
                     break
         if not prefixes:
             return
-        per = max(6, max_paths // len(prefixes))
+        per = max(2, max_paths // len(prefixes))
         for tr in prefixes[:max_paths]:
             w_, pc_ = tr[-1][2].world, tr[-1][2].pc
             got = list(_it.islice(rec(len(steps) - 1, w_, pc_, tr), 3 * per + 1))
